@@ -98,6 +98,13 @@ def node_xml(n) -> str:
         if t is None:
             return f"<m:r>{pr}<m:t/></m:r>"
         sp = ' xml:space="preserve"' if (t != t.strip()) else ""
+        form = n.get("form", 0)
+        if form == 1 and re.match(r"[a-z]\d{3}", t):
+            # the run's text in two text children (Word writes this after an edit inside a run); split inside the token, where no symbol mapping applies
+            return f"<m:r>{pr}<m:t>{escape(t[:2])}</m:t><m:t{sp}>{escape(t[2:])}</m:t></m:r>"
+        if form == 2:
+            # run text in the WordprocessingML namespace (w:t), which the converter documents as accepted
+            return f"<m:r>{pr}<w:t{sp}>{escape(t)}</w:t></m:r>"
         return f"<m:r>{pr}<m:t{sp}>{escape(t)}</m:t></m:r>"
     ctrl = bool(n.get("pr"))
     cp = "<m:ctrlPr><w:rPr><w:i/></w:rPr></m:ctrlPr>" if ctrl else ""
@@ -458,7 +465,7 @@ def roots(draw, max_depth=5, allow_braces=False, allow_malformed=True):
         kind = draw(st.integers(0, 19))
         if kind == 0:
             return {"k": "r", "t": draw(st.sampled_from(["", None, " "])), "pr": draw(st.booleans())}
-        return {"k": "r", "t": _text(draw, counter[0], allow_braces), "pr": draw(st.booleans())}
+        return {"k": "r", "t": _text(draw, counter[0], allow_braces), "pr": draw(st.booleans()), "form": draw(st.sampled_from([0, 0, 0, 0, 1, 2]))}
 
     def arg(depth, optional=True):
         c = draw(st.integers(0, 9))
